@@ -388,7 +388,13 @@ def sym_strmeth(name, recv, *a):
     return getattr(recv, name)(*a)
 
 
+def sym_set(*a):
+    from symex import nondet
+    return nondet.make_set(*a)
+
+
 class _Builtins:
+    set = staticmethod(sym_set)
     strmeth = staticmethod(sym_strmeth)
     int = staticmethod(sym_int)
     float = staticmethod(sym_float)
